@@ -65,7 +65,10 @@ Inductive qop :=
 | VecAssignNull (k : nat)      (* vec[k] = nullptr *)
 | Swap (i j : nat)             (* std::swap(pool[i], pool[j]): move-construct a temporary, two move assignments *)
 | DefCtor (i : nat)            (* new (&pool[i]) quaint_ptr()   slot i Gone: an empty pointer *)
-| VecPop.                      (* vec.pop_back() *)
+| VecPop                       (* vec.pop_back() *)
+| VecErase (k : nat).          (* vec.erase(vec.begin() + k): the elements behind k are move-assigned one position down
+                                  (the first of these assignments releases vec[k]'s pointee, the others land on moved-from
+                                  elements), then the last, moved-from, element is destroyed *)
 
 Definition is_live (s : option slot) : option ptr := match s with Some (Live p) => Some p | _ => None end.
 
@@ -82,6 +85,7 @@ Definition q_applicable (st : qstate) (o : qop) : bool :=
   | Swap i j => match is_live (nth_error (pool st) i), is_live (nth_error (pool st) j) with Some _, Some _ => true | _, _ => false end
   | DefCtor i => match nth_error (pool st) i with Some Gone => true | _ => false end
   | VecPop => match vec st with [] => false | _ => true end
+  | VecErase k => match nth_error (vec st) k with Some _ => true | None => false end
   end.
 
 Definition q_step (st : qstate) (o : qop) : qstate :=
@@ -170,6 +174,11 @@ Definition q_step (st : qstate) (o : qop) : qstate :=
       match rev (vec st) with
       | p :: r => mkQ (release (heap st) p) (pool st) (rev r)
       | [] => st
+      end
+  | VecErase k =>
+      match nth_error (vec st) k with
+      | Some p => mkQ (release (heap st) p) (pool st) (firstn k (vec st) ++ skipn (S k) (vec st))
+      | None => st
       end
   end.
 
